@@ -10,6 +10,7 @@ import (
 	"math"
 	"math/rand/v2"
 	"reflect"
+	"regexp"
 	"strings"
 
 	json "github.com/go-json-experiment/json"
@@ -559,9 +560,9 @@ func behaveOne(w *run.W, a *behaveArgs, r *rand.Rand) {
 				if errClass(ra.err) != errClass(rb.err) {
 					w.Count("observed_irrelevant_option_changes_error_position", 1)
 				}
-			if errClass(ra.err) != errClass(rb.err) {
-				w.Count("observed_irrelevant_option_changes_error_position", 1)
-			}
+				if errClass(ra.err) != errClass(rb.err) {
+					w.Count("observed_irrelevant_option_changes_error_position", 1)
+				}
 				if len(base) > 0 {
 					if _, same := sameResult(op.fn(text, nil), ra); !same {
 						w.Count("irrelevance_option_sensitive_bases", 1)
@@ -623,6 +624,17 @@ func behaveOne(w *run.W, a *behaveArgs, r *rand.Rand) {
 			ua, ub := opUnmarshal(t, text, nil), opUnmarshal(t, text, opts)
 			if d, ok := sameResult(ua, ub); !ok {
 				w.Violate("defaultv2-does-not-cancel", map[string]string{"op": "Unmarshal"}, "Unmarshal(%q into %v): no options vs %s + DefaultOptionsV2(): %s", text, t, seqName(seq), d)
+			}
+			// the same on a text that only the loose v1 parsing rules accept (times, Base64, array lengths, name case)
+			if loose := loosen(r, text); !bytes.Equal(loose, text) {
+				la, lb := opUnmarshal(t, loose, nil), opUnmarshal(t, loose, opts)
+				if d, ok := sameResult(la, lb); !ok {
+					w.Violate("defaultv2-does-not-cancel", map[string]string{"op": "Unmarshal", "text": "loosened"}, "Unmarshal(%q into %v): no options vs %s + DefaultOptionsV2(): %s", loose, t, seqName(seq), d)
+				}
+				w.Count("v2_cancellations_on_loosened_text", 1)
+				if lc := opUnmarshal(t, loose, buildOpts(seq)); (lc.err == nil) != (la.err == nil) {
+					w.Count("v2_cancellations_of_effective_unmarshal_options", 1)
+				}
 			}
 			// the v1 options did matter before being cancelled (non-vacuity)
 			if rc := opMarshal(in, buildOpts(seq)); !bytes.Equal(rc.out, ra.out) || (rc.err == nil) != (ra.err == nil) {
@@ -726,3 +738,34 @@ var layoutAtoms = func() []int {
 	}
 	return out
 }()
+
+var (
+	reHour    = regexp.MustCompile(`"(\d{4}-\d\d-\d\dT)0(\d:\d\d:\d\d)`)
+	reFrac    = regexp.MustCompile(`(T\d\d:\d\d:\d\d)\.(\d+)`)
+	reB64     = regexp.MustCompile(`"([A-Za-z0-9+/]{4})([A-Za-z0-9+/=]{4,})"`)
+	reLastEl  = regexp.MustCompile(`,(\d+|"[^"\\]*"|true|false|null)\]`)
+	reNameLow = regexp.MustCompile(`"([A-Z])([A-Za-z0-9]*)":`)
+)
+
+// loosen rewrites a text into one that strict v2 parsing refuses (or reads differently) but the loose
+// v1 rules accept: hour without leading zero, ',' before fractional seconds, a line break inside Base64,
+// a JSON array one element short, a member name in another case.
+func loosen(r *rand.Rand, text []byte) []byte {
+	out := text
+	// the first transform that applies, starting from a random one
+	for n, k := 0, r.IntN(5); n < 5 && bytes.Equal(out, text); n, k = n+1, (k+1)%5 {
+		switch k {
+		case 0:
+			out = reHour.ReplaceAll(out, []byte(`"${1}${2}`))
+		case 1:
+			out = reFrac.ReplaceAll(out, []byte(`${1},${2}`))
+		case 2:
+			out = reB64.ReplaceAll(out, []byte(`"${1}\n${2}"`))
+		case 3:
+			out = reLastEl.ReplaceAll(out, []byte(`]`))
+		case 4:
+			out = reNameLow.ReplaceAllFunc(out, func(m []byte) []byte { return bytes.ToLower(m) })
+		}
+	}
+	return out
+}
